@@ -16,6 +16,7 @@ def tasks(run):
         hist = [(rng.choice(names), rng.randrange(1000), rng.choice(['build', 'abandon', 'build'])) for _ in range(rng.choice([2, 3, 4]))]
         out.append(('history', ('T_composite', 2 + 3 * i, hist)))
     out += [('verbosity', (names[i], 7)) for i in range(0, len(names), 3)]
+    out += [('verbosity', ('T_gd_ssc', 5, 'logdet2')), ('verbosity', ('T_metrics', 6, 'logdet3'))]      # the reweighting loop of the heuristic at every verbosity
     out += [('fresh_process', ('T_gd_ssc', 3, 'objects')), ('fresh_process', ('T_blocks', 4, 'objects')), ('fresh_process', ('T_quadratic', 5, 'model'))]
     return out
 
